@@ -249,6 +249,7 @@ def check_promotion(case, ctx, G):
     ctx.sample("promotion/->%s/%s" % (want, which), case)
     vals = [to_type(t, q) for t, q in zip(tns, qs)]
     facts = {"mode": "promotion", "types": list(tns)}
+    shared_fail = None
     try:
         if which == "Vector":
             o = G.Vector(*vals)
@@ -256,6 +257,18 @@ def check_promotion(case, ctx, G):
         elif which == "Vector(list)":
             o = G.Vector(list(vals))
             got = [o[0], o[1], o[2]]
+        elif which == "Vector(shared list)":
+            # two Vectors built from one list object, and the list reused by the caller afterwards: each Vector
+            # holds the coordinates it was given until they are assigned through the Vector itself
+            lst = list(vals)
+            o = G.Vector(lst)
+            o2 = G.Vector(lst)
+            o2[0] = vals[1]
+            lst[2] = vals[0]
+            lst[1] = vals[0]
+            got = [o[0], o[1], o[2]]
+            if as_frac(o2[1]) != qs[1] or as_frac(o2[2]) != qs[2] or as_frac(o2[0]) != qs[1]:
+                shared_fail = Fail("a Vector built from a list changed when another Vector built from the same list was assigned to / the list was edited", {"got": repr([o2[0], o2[1], o2[2]])}, facts)
         elif which == "Point(edited Vector)":
             # a Vector whose coordinates were assigned one by one (documented item setting) holds a mixture;
             # the Point built from it must promote like any other constructor call
@@ -269,6 +282,8 @@ def check_promotion(case, ctx, G):
             got = [o.x, o.y, o.z]
     except Exception as e:
         raise Fail("%s constructor with mixed types raises %s" % (which, type(e).__name__), {"error": repr(e), "types": tns}, facts)
+    if shared_fail is not None:
+        raise shared_fail
     T = TYPES[want]
     for g, q in zip(got, qs):
         if type(g) is not T:
@@ -476,7 +491,10 @@ def gen_promo(draw):
     tns = tuple(draw(st.sampled_from(["int", "frac", "dec", "float", "poly"])) for _ in range(3))
     qs = tuple(draw(q_for(t)) for t in tns)
     # values must be representable in the target type too: float->Decimal/Fraction exact (dyadic); ok
-    which = draw(st.sampled_from(["Vector", "Vector(list)", "Point", "Point(edited Vector)"]))
+    which = draw(st.sampled_from(["Vector", "Vector(list)", "Point", "Point(edited Vector)", "Vector(shared list)"]))
+    if which == "Vector(shared list)" and draw(st.booleans()):
+        tns = (tns[0],) * 3
+        qs = tuple(draw(q_for(tns[0])) for _ in range(3))
     return ("PROMO", tns, qs, which)
 
 
